@@ -11,7 +11,9 @@ import gen_prog
 def gen_programs(seed, n, size, err_rate=0.25, base=0, features=None):
     progs, srcs = [], {}
     for i in range(n):
-        p, src = gen_prog.generate(seed * 1000003 + base + i, base + i, size=size, err_rate=err_rate, features=features)
+        # a feature given as "half" is on for every second program
+        f = {k: ((base + i) % 2 == 1 if v == "half" else v) for k, v in (features or {}).items()}
+        p, src = gen_prog.generate(seed * 1000003 + base + i, base + i, size=size, err_rate=err_rate, features=f)
         progs.append(p)
         srcs[base + i] = src
     return progs, srcs
